@@ -104,6 +104,9 @@ func c16Run(c c16Case) Verdict {
 		}
 		noopErr = cl.Noop()
 	})
+	if !ok && lastClientStuck {
+		return failf("client-hang", "a client call never returns: client and server both wait for each other (recipients %v, LMTP %v, first Close returned %v)", c.Rcpts, c.LMTP, closeErr)
+	}
 	if !ok {
 		return Verdict{Inconclusive: "watchdog in client run"}
 	}
